@@ -581,13 +581,13 @@ OBLIGATIONS = [
     {"id": "c05.lemma.slices_split", "func": "slices_split", "timeout": 200,
      "functions": ["onnxscript.rewriter.rules.common._basic_rules:SlicesSplit.check", "onnxscript.rewriter.rules.common._basic_rules:SlicesSplit.rewrite"],
      "bounds": "rank 1..2; begins/ends/axes: all integers; dims static (unbounded) / symbolic", "stubs": ["FakeValue.const_value.numpy() list-backed", "RecOp"]},
-    *[{"id": f"c05.lemma.expand_s1.x{a}y{b}e{c}", "func": "expand_s1", "extra_pres": [f"xr == {a} and yr == {b} and er == {c}"], "timeout": 300,
+    *[{"id": f"c05.lemma.expand_s1.x{a}y{b}e{c}", "func": "expand_s1", "extra_pres": [f"xr == {a} and yr == {b} and er == {c}"], "timeout": 300, "timeout_thorough": 1500,
        "tiers": ("quick", "thorough") if a + b <= 1 or (a, b) == (1, 1) else ("thorough",),
        "functions": ["onnxscript.rewriter.rules.common._remove_expand_before_binary_op:_check_expand_removable"],
        "bounds": f"rank(x)={a}, rank(y)={b}, rank(target)={c}; static dims unbounded >= 0; symbols N, M and anonymous dims with unbounded runtime values",
        "stubs": ["get_numpy_value -> list-backed constant"]}
       for a in range(3) for b in range(3) for c in range(1, 4)],
-    *[{"id": f"c05.lemma.expand_s{st}.x{a}y{b}e{c}", "func": "expand_s23", "extra_pres": [f"strategy == {st} and xr == {a} and yr == {b} and er == {c}"], "timeout": 300,
+    *[{"id": f"c05.lemma.expand_s{st}.x{a}y{b}e{c}", "func": "expand_s23", "extra_pres": [f"strategy == {st} and xr == {a} and yr == {b} and er == {c}"], "timeout": 300, "timeout_thorough": 1500,
        "tiers": ("quick", "thorough") if a + b + c <= 2 or (a, b, c) == (1, 1, 1) else ("thorough",),
        "functions": ["onnxscript.rewriter.rules.common._remove_expand_before_binary_op:_check_expand_removable",
                      "onnxscript.rewriter.rules.common._remove_expand_before_binary_op:_check_dims_sufficient",
